@@ -116,8 +116,15 @@ type flow struct {
 }
 
 // startFlow runs the real OAuthStart in-process and harvests the two sealings.
-func (w *World) startFlow(host, target string) (*flow, error) {
-	r := world.Do(w.P.Handler, world.NewReq("GET", host, target, nil, nil, ""))
+func (w *World) startFlow(host, target string) (*flow, error) { return w.startFlowWith(host, target, "") }
+
+// startFlowWith starts a flow in a browser that already holds the CSRF cookie of an earlier flow (another tab).
+func (w *World) startFlowWith(host, target, held string) (*flow, error) {
+	var cs []*http.Cookie
+	if held != "" {
+		cs = append(cs, &http.Cookie{Name: w.P.CSRFName, Value: held})
+	}
+	r := world.Do(w.P.Handler, world.NewReq("GET", host, target, nil, cs, ""))
 	if r.Status != 302 {
 		return nil, fmt.Errorf("start %s%s: status %d", host, target, r.Status)
 	}
@@ -166,7 +173,14 @@ func (w *World) RunCell(n int, c Cell, r *rand.Rand) (Line, error) {
 	if err != nil {
 		return Line{}, err
 	}
-	fb, err := w.startFlow(hostOther, pick(r, "/secretB", "/other/page?y=2"))
+	// the other flow: started at another upstream host, or in another tab of the same browser at this host (the
+	// browser then already holds the first flow's CSRF cookie)
+	var fb *flow
+	if r.Intn(2) == 0 {
+		fb, err = w.startFlow(hostOther, pick(r, "/secretB", "/other/page?y=2"))
+	} else {
+		fb, err = w.startFlowWith(hostOwn, pick(r, "/tab-b", "/other/page?y=2", "/secretA?x=2"), fa.cookie)
+	}
 	if err != nil {
 		return Line{}, err
 	}
